@@ -183,6 +183,7 @@ func (ex *executor) overlapStep(idx int, st *Step) {
 	// about; they stay the upload's own to write to, leave behind or remove.
 	partial := map[uint64]bool{}
 	var inoRelease map[string]uint64
+	outsideBeforeStall := append([]string{}, ex.seam.Outside...) // the Bs' steps reset the monitor's list
 	if overlapped {
 		ex.probe("overlap-stalled")
 		have := map[uint64]bool{}
@@ -252,7 +253,10 @@ func (ex *executor) overlapStep(idx int, st *Step) {
 			}
 		}
 		for p, i := range inodes(ex.w.Root) {
-			if partial[i] && !s2[p].Dir {
+			// ... where they were when the upload went on; a partial file that
+			// the failing upload itself moved somewhere else afterwards (its
+			// commit) is compared like everything else
+			if partial[i] && !s2[p].Dir && inoRelease[p] == i {
 				delete(s2, p)
 				delete(expected, p)
 			}
@@ -281,8 +285,8 @@ func (ex *executor) overlapStep(idx int, st *Step) {
 			ex.finding(Violation{Prop: "C17", Clause: "path-leak", Class: class, Msg: fmt.Sprintf("response %s contains the host path", where), Step: idx})
 		}
 	}
-	if len(ex.seam.Outside) > 0 {
-		ex.finding(Violation{Prop: "C03", Clause: "outside-access", Class: class, Msg: fmt.Sprintf("file-system calls left the served root: %s", strings.ReplaceAll(strings.Join(ex.seam.Outside, ", "), ex.w.Sandbox, "$SB")), Step: idx})
+	if out := append(outsideBeforeStall, ex.seam.Outside...); len(out) > 0 {
+		ex.finding(Violation{Prop: "C03", Clause: "outside-access", Class: class, Msg: fmt.Sprintf("file-system calls left the served root: %s", strings.ReplaceAll(strings.Join(out, ", "), ex.w.Sandbox, "$SB")), Step: idx})
 	}
 	if xa.BodyFailed && xa.Resp.Status/100 == 2 {
 		ex.finding(Violation{Prop: "C02", Clause: "ack-after-broken-body", Class: class, Msg: fmt.Sprintf("the body stream failed after %d of %d bytes (%s) but the request was answered %d", xa.Delivered, len(st.Body), xa.BodyFault.Kind, xa.Resp.Status), Step: idx})
